@@ -81,6 +81,14 @@ func loadProgram(dirs []string) (*sym.Program, error) {
 }
 
 func main() {
+	if exe, err := os.Executable(); err == nil {
+		// <verif>/bin/gosmt: harnesses, evidence and known findings are read relative to the binary
+		if d := filepath.Dir(exe); filepath.Base(d) == "bin" {
+			if _, err := os.Stat(filepath.Join(filepath.Dir(d), "harness")); err == nil {
+				verifDir = filepath.Dir(d)
+			}
+		}
+	}
 	if r := os.Getenv("GOSMT_REPO"); r != "" {
 		repoDir = r // seeded-change experiments run against a scratch worktree instead of /repo
 	}
